@@ -354,17 +354,26 @@ def trlog2(T, check=True, twist=False):
             else:
                 return np.zeros((3, 3))
         else:
+            # closed form: log [R(theta) t; 0 1] = [skew(theta) inv(V) t; 0 0] with
+            # inv(V) = [a b; -b a], a = (theta/2) / tan(theta/2), b = theta/2
+            # (scipy.linalg.logm returns a complex matrix near a half turn and for
+            # large translations)
+            theta = math.atan2(T[1, 0], T[0, 0])
+            b = theta / 2
+            a = 1.0 if theta == 0 else b / math.tan(b)
+            v = np.array([[a, b], [-b, a]]) @ T[:2, 2]
             if twist:
-                return base.vexa(scipy.linalg.logm(T))
+                return np.r_[v, theta]
             else:
-                return scipy.linalg.logm(T)
+                return base.skewa(np.r_[v, theta])
 
     elif isrot2(T, check=check):
         # SO(2) rotation matrix
+        theta = math.atan2(T[1, 0], T[0, 0])
         if twist:
-            return base.vex(scipy.linalg.logm(T))
+            return np.array([theta])
         else:
-            return scipy.linalg.logm(T)
+            return base.skew(theta)
     else:
         raise ValueError("Expect SO(2) or SE(2) matrix")
 # ---------------------------------------------------------------------------------------#
